@@ -1,4 +1,4 @@
-import IstioModel.C11.Lemmas
+import IstioModel.C11.AuthCacheLemmas
 
 /-!
 C11 - the SubjectAccessReview result cache (`CredentialsController.authorizationCache`): bounded staleness.
@@ -9,38 +9,6 @@ is the API server's true answer at some moment less than that TTL ago - so a rev
 minutes and a new grant within one minute - for every history of clock advances, policy changes and queries.
 -/
 namespace IstioModel.C11
-
-/-- The API server's true answer as a function of the clock second. -/
-abbrev Truth := Nat → Str → Str → Bool
-
-/-- Cache invariant at clock second `now`: every entry is the true answer of some second `t0 ≤ now` and expires
-    exactly its TTL after `t0`. -/
-def ACInv (truth : Truth) (now : Nat) (ac : AuthCache) : Prop :=
-  ∀ e ∈ ac, ∃ t0, t0 ≤ now ∧ e.exp = t0 + authTTL e.verdict ∧ e.verdict = truth t0 e.sa e.ns
-
-theorem acinv_nil (truth : Truth) (now : Nat) : ACInv truth now [] := by
-  intro e he; cases he
-
-/-- The clock only moves forward; the invariant survives. -/
-theorem acinv_mono {truth : Truth} {now now' : Nat} {ac : AuthCache} (h : ACInv truth now ac) (hle : now ≤ now') :
-    ACInv truth now' ac := by
-  intro e he
-  obtain ⟨t0, h1, h2, h3⟩ := h e he
-  exact ⟨t0, Nat.le_trans h1 hle, h2, h3⟩
-
-theorem acinv_clear {truth : Truth} {now : Nat} {ac : AuthCache} (h : ACInv truth now ac) :
-    ACInv truth now (ac.clear now) := by
-  intro e he
-  unfold AuthCache.clear at he
-  exact h e (List.mem_filter.mp he).1
-
-theorem find_some {ac : AuthCache} {sa ns : Str} {e : ACEntry} (h : ac.find sa ns = some e) :
-    e ∈ ac ∧ e.sa = sa ∧ e.ns = ns := by
-  unfold AuthCache.find at h
-  have h1 := List.find?_some h
-  have h2 := List.mem_of_find?_eq_some h
-  simp only [Bool.and_eq_true, decide_eq_true_eq] at h1
-  exact ⟨h2, h1.1, h1.2⟩
 
 /-- **authorize_bounded_staleness.** Whatever the cache holds (under the invariant), the verdict `Authorize` returns
     at second `now` for user `(sa, ns)` is the API server's true answer at some second `t0 ≤ now` with
